@@ -56,11 +56,27 @@ class FakeL2:
         self.pause_log = []
         self._description = "fake-l2-%s-%d" % (side, gen)
         self.sent_log = []
+        # backpressure: after this many sequenced records the transport's buffer is full and it tells its producer (the
+        # Outbound) to stop, from inside send_record() as Twisted does from inside write()
+        self.pause_after = getattr(world, "pause_after", {}).pop(side, None)
+        self.sent_since_resume = 0
 
     def send_record(self, r):
         self.sent_log.append(r)
         if self.world.link_up(self.gen):
             self.out.append(r)
+        if self.pause_after is not None and isinstance(r, (Open, Data, Close)):
+            self.sent_since_resume += 1
+            if self.sent_since_resume >= self.pause_after and self.transport.producer is not None:
+                self.pause_after = None
+                self.transport.producer.pauseProducing()
+
+    def drained(self, then_pause_after=None):
+        """the buffer has emptied: resumeProducing(), possibly filling up again after some more records"""
+        self.sent_since_resume = 0
+        self.pause_after = then_pause_after
+        if self.transport.producer is not None:
+            self.transport.producer.resumeProducing()
 
     def disconnect(self):
         self.closing = True
@@ -174,6 +190,7 @@ class DilMidWorld:
         self._orig_connector = M.Connector
         M.Connector = FakeConnector
         self.notes = []
+        self.pause_after = {}
         self.app_events = []
         self.data_hooks = {}
         self._building_inbound = True
@@ -226,14 +243,23 @@ class DilMidWorld:
             s.conn = FakeL2(self, n, self.gen)
             s.gen = self.gen
         for n in ("L", "F"):
-            self.sides[n].m.connector_connection_made(self.sides[n].conn)
+            self._made(n)
         self.settle()
+
+    def _made(self, n):
+        """Connector.accept() runs in an eventual-queue turn: an exception out of connector_connection_made() is logged
+        there and the Manager is left as it is"""
+        s = self.sides[n]
+        try:
+            s.m.connector_connection_made(s.conn)
+        except Exception as e:
+            s.errors.append(e)
 
     def connect_one(self, n):
         s = self.sides[n]
         if s.conn is None or s.conn.gen != self.gen or not s.conn.alive:
             s.conn = FakeL2(self, n, self.gen)
-            s.m.connector_connection_made(s.conn)
+            self._made(n)
             self.settle()
 
     def cut(self):
